@@ -73,6 +73,17 @@ pub fn repeat_check() -> bool {
     REPEAT_CHECK.load(std::sync::atomic::Ordering::Relaxed)
 }
 
+/// orders in which the builder options (0 min/max, 1 target, 2 transpose, 3 for_each/filter) are applied
+/// (options that take no closure are idempotent: the last two orders apply them twice)
+pub const OPT_ORDERS: [&[u8]; 6] = [&[0, 1, 2, 3], &[3, 2, 1, 0], &[2, 3, 0, 1], &[1, 3, 0, 2], &[2, 0, 1, 3, 2], &[1, 2, 0, 2, 3, 0, 1, 2]];
+thread_local! { static OPT_ORDER: std::cell::Cell<u8> = const { std::cell::Cell::new(0) }; }
+pub fn opt_order() -> u8 {
+    OPT_ORDER.with(|c| c.get())
+}
+pub fn set_opt_order(v: u8) {
+    OPT_ORDER.with(|c| c.set(v))
+}
+
 /// Iterator contract: lower bound <= upper bound (a size_hint that panics is caught by the caller)
 pub fn check_hint(h: (usize, Option<usize>)) {
     if let (lo, Some(hi)) = h {
@@ -211,15 +222,37 @@ macro_rules! search_body {
             }
         };
         let mut b = $root.$ctor();
-        search_body!(@prio b, cfg, $prio);
-        if cfg.target.is_some() {
-            b = b.target(&tk);
-        }
-        search_body!(@tr b, cfg, $tr);
-        match kind {
-            1 => b = b.for_each(&mut fe),
-            2 => b = b.filter(&mut fl),
-            _ => {}
+        // the builder options are applied in one of four orders (chosen by the caller through OPT_ORDER):
+        // 0 = prio, target, transpose, closure
+        let mut fe_ref: Option<&mut dyn FnMut(&$E)> = Some(&mut fe);
+        let mut fl_ref: Option<&mut dyn FnMut(&$E) -> bool> = Some(&mut fl);
+        for &step in OPT_ORDERS[opt_order() as usize % OPT_ORDERS.len()] {
+            match step {
+                0 => {
+                    search_body!(@prio b, cfg, $prio);
+                }
+                1 => {
+                    if cfg.target.is_some() {
+                        b = b.target(&tk);
+                    }
+                }
+                2 => {
+                    search_body!(@tr b, cfg, $tr);
+                }
+                _ => match kind {
+                    1 => {
+                        if let Some(f) = fe_ref.take() {
+                            b = b.for_each(f)
+                        }
+                    }
+                    2 => {
+                        if let Some(f) = fl_ref.take() {
+                            b = b.filter(f)
+                        }
+                    }
+                    _ => {}
+                },
+            }
         }
         match cfg.term {
             Term::Search => SearchRes::Node(b.search()),
@@ -328,11 +361,28 @@ macro_rules! order_body {
         };
         #[allow(unused_mut)]
         let mut o = $mk;
-        order_body!(@tr o, cfg, $tr);
-        match kind {
-            1 => o = o.for_each(&mut fe),
-            2 => o = o.filter(&mut fl),
-            _ => {}
+        let mut fe_ref: Option<&mut dyn FnMut(&$E)> = Some(&mut fe);
+        let mut fl_ref: Option<&mut dyn FnMut(&$E) -> bool> = Some(&mut fl);
+        for &step in OPT_ORDERS[opt_order() as usize % OPT_ORDERS.len()] {
+            match step {
+                2 => {
+                    order_body!(@tr o, cfg, $tr);
+                }
+                3 => match kind {
+                    1 => {
+                        if let Some(f) = fe_ref.take() {
+                            o = o.for_each(f)
+                        }
+                    }
+                    2 => {
+                        if let Some(f) = fl_ref.take() {
+                            o = o.filter(f)
+                        }
+                    }
+                    _ => {}
+                },
+                _ => {}
+            }
         }
         match cfg.term {
             OTerm::Nodes => {
